@@ -97,6 +97,7 @@ func fieldCoverage(pkgs []*packages.Package, tn *types.TypeName) fieldUse {
 
 func runC41(w *World, r *Report) {
 	c41PipeDeadlines(w, r)
+	c41CopyLoopsRunToTheEnd(w, r)
 	r.Rule("R-C41-1", "every field of services.ChildServiceRequest has an explicit write (parent side) and an explicit read (child side) in package services", 20)
 	r.Rule("R-C41-2", "every field of services.ChildServiceResponse has an explicit write (child side) and an explicit read (parent side) in package services", 4)
 
